@@ -210,7 +210,7 @@ def extract(repo):
 
 
 def _row_v(r):
-    return ('{| r_site := %s; r_encl := %s; r_cls := %s; r_callee := %s; r_mode := %s; r_file := %s; r_line := %d; r_end := %d |}'
+    return ('{| r_site := %s; r_encl := %s; r_cls := %s; r_callee := %s; r_mode := %s; r_file := %s; r_line := %d%%N; r_end := %d%%N |}'
             % (r["site"], C.cstr(r["encl"]), r["cls"], C.cstr(r["callee"]), r["mode"], C.cstr(r["file"]), r["line"], r["end"]))
 
 
